@@ -20,6 +20,9 @@
 (*    res |-> digest class of the result, err |-> 1 iff the routine raised,*)
 (*    fok |-> 1 file holds the returned value | 0 it does not | 2 no file, *)
 (*    cur |-> frames consumed on the two user handles after the call]      *)
+(*   [op |-> "scribble"]  the user overwrote the value returned by the     *)
+(*                        previous call in place (arrays not shared with   *)
+(*                        any tracked object)                              *)
 (* (before / after vectors are delta-encoded; ver carries the full vector.)*)
 (* The specification carries ana, cursor (nominal state, exactly as        *)
 (* Session.tla defines it) and memo - memo persists across sessions, so a  *)
@@ -101,7 +104,13 @@ Call  == /\ Tr[l].op = "call" /\ ~skip
 Skip  == /\ Tr[l].op = "call" /\ skip /\ l' = l + 1
          /\ UNCHANGED <<rej, skip, ver, ana, cursor, memo>> /\ UNCHANGED Rest
 
-TNext == l <= Len(Tr) /\ (Header \/ Begin \/ Call \/ Skip)
+(* the user overwrote, in place, the value the previous call returned (Session!Scribble): a returned value
+   belongs to the caller, so nothing the specification tracks changes - the NEXT call records must still show
+   no change between calls (d0) and agree with memo                                                    *)
+Scrib == /\ Tr[l].op = "scribble" /\ l' = l + 1
+         /\ UNCHANGED <<rej, skip, ver, ana, cursor, memo>> /\ UNCHANGED Rest
+
+TNext == l <= Len(Tr) /\ (Header \/ Begin \/ Call \/ Skip \/ Scrib)
 Spec == TInit /\ [][TNext]_tvars
 
 (* every record is consumed; the verdict is printed at the end of the trace *)
